@@ -35,6 +35,7 @@ type Result struct {
 	Outcomes   []string          `json:"os,omitempty"`
 	NontrivN   int               `json:"ntn,omitempty"`
 	Poisoned   bool              `json:"poisoned,omitempty"` // a Go panic was recovered; the worker exits after this case
+	Incomplete bool              `json:"inc,omitempty"`      // the run's budget ended before this case was fully enumerated
 	Died       bool              `json:"died,omitempty"`
 	TimedOut   bool              `json:"timeout,omitempty"`
 	Stderr     string            `json:"stderr,omitempty"`
@@ -55,7 +56,43 @@ func RegisterWorker(kind string, f WorkerFunc) { workerFuncs[kind] = f }
 type wireReq struct {
 	Kind string          `json:"kind"`
 	Case json.RawMessage `json:"case"`
+	// Deadline (unix nanoseconds, 0 = none) is the run's wall-clock budget: an enumerating worker stops
+	// starting new executions after it and reports the case as incomplete (coverage, never a verdict).
+	Deadline int64 `json:"deadline,omitempty"`
 }
+
+// RunDeadline is set by a budgeted run in the parent process and sent along with every case.
+var RunDeadline int64
+
+var (
+	caseDeadline   int64
+	caseIncomplete bool
+	lastBeat       time.Time
+)
+
+// Beat is called by a worker after every complete execution inside a case. It tells the parent that the
+// case is making progress (the watchdog fires only after CaseTimeout WITHOUT progress, i.e. on a real hang,
+// never because a case is merely large), and it returns true when the run's budget is used up: the caller
+// then stops enumerating and the case is reported as incomplete.
+func Beat() (stop bool) {
+	now := time.Now()
+	if now.Sub(lastBeat) > BeatEvery {
+		lastBeat = now
+		if inWorker {
+			os.Stdout.Write([]byte("#\n"))
+		}
+	}
+	if caseDeadline != 0 && now.UnixNano() > caseDeadline {
+		caseIncomplete = true
+		return true
+	}
+	return false
+}
+
+var inWorker bool
+
+// BeatEvery is the minimum interval between two progress lines of a worker.
+var BeatEvery = 5 * time.Second
 
 // RunInProcess runs a case in this process (replay, and the worker loop).
 func RunInProcess(kind string, c json.RawMessage) (res *Result) {
@@ -91,7 +128,12 @@ func WorkerMain() {
 				fmt.Fprintf(os.Stderr, "worker: bad request: %v\n", e)
 				os.Exit(4)
 			}
+			inWorker = true
+			caseDeadline, caseIncomplete, lastBeat = req.Deadline, false, time.Now()
 			res := RunInProcess(req.Kind, req.Case)
+			if caseIncomplete {
+				res.Incomplete = true
+			}
 			b, e := json.Marshal(res)
 			if e != nil {
 				fmt.Fprintf(os.Stderr, "worker: marshal: %v\n", e)
@@ -203,22 +245,36 @@ var CaseTimeout = 300 * time.Second
 var RecycleEvery = 4000
 
 func (w *worker) run(kind string, c json.RawMessage) *Result {
-	b, _ := json.Marshal(wireReq{Kind: kind, Case: c})
+	b, _ := json.Marshal(wireReq{Kind: kind, Case: c, Deadline: RunDeadline})
 	b = append(b, '\n')
 	type rd struct {
 		line []byte
 		err  error
 	}
 	ch := make(chan rd, 1)
+	beat := make(chan struct{}, 1)
 	go func() {
 		if _, err := w.in.Write(b); err != nil {
 			ch <- rd{nil, err}
 			return
 		}
-		line, err := w.out.ReadBytes('\n')
-		ch <- rd{line, err}
+		for {
+			line, err := w.out.ReadBytes('\n')
+			if err == nil && len(line) == 2 && line[0] == '#' {
+				select {
+				case beat <- struct{}{}:
+				default:
+				}
+				continue
+			}
+			ch <- rd{line, err}
+			return
+		}
 	}()
+wait:
 	select {
+	case <-beat:
+		goto wait // progress: the watchdog restarts
 	case r := <-ch:
 		if r.err != nil || len(bytes.TrimSpace(r.line)) == 0 {
 			w.cmd.Wait()
